@@ -289,21 +289,31 @@ Proof.
   rewrite (cat_get_plain s A tn W).
   destruct (alookup tn (s_cat s)) as [csc|] eqn:EL; [|cbn; auto with c33].
   match goal with |- context [negb (forallb ?F rows)] => destruct (forallb F rows) eqn:EW end; cbn [negb]; [|cbn; auto with c33].
+  destruct (degenerate_keys csc); [cbn; split; auto; split; discriminate|].
   destruct (checks_err csc); [cbn; auto with c33|].
-  destruct (phase5_err s tn csc); [cbn; auto with c33|].
   destruct (listed_table s A tn csc EL) as [old [ET WD]].
+  destruct (ag_cat_wf s A tn csc EL) as [_ [_ CO]].
+  pose proof (forallb_width rows _ EW) as NW.
+  (* phase 5 probes every unique index whose table name matches up to case: a missing column is an
+     error there, and full-width rows cannot be too short *)
+  assert (NP5 : fst (phase5_probe tn csc rows (s_sidx s)) = false).
+  { apply probe_no_panic. intros k x r HI Hr _.
+    pose proof (extract_key_no_oob csc (si_cols x) r CO) as HO.
+    rewrite Forall_forall in NW. specialize (HO (NW r Hr)).
+    destruct (extract_key csc (si_cols x) r); auto. }
+  destruct (phase5_probe tn csc rows (s_sidx s)) as [pn5 er5]. cbn [fst] in NP5. subst pn5.
+  destruct er5; [cbn; auto with c33|].
   rewrite (ops_find_plain s A tn W).
   assert (ST : amem (qual public tn) (s_tabs s) = true) by (apply amem_alookup; eauto).
   rewrite ST, ET. cbn [t_schema t_rows].
-  destruct (ag_cat_wf s A tn csc EL) as [_ [_ CO]].
-  pose proof (forallb_width rows _ EW) as NW.
-  (* the probe of the unique indexes cannot panic *)
+  (* the storage-level probe of the table's own unique indexes cannot panic *)
   assert (NP : fst (uniq_probe tn csc rows (s_sidx s)) = false).
-  { apply uniq_probe_no_panic. intros k x r HI Hr Et. apply name_eqb_eq in Et.
+  { apply probe_no_panic. intros k x r HI Hr Et. apply andb_true_iff in Et. destruct Et as [Et _]. apply name_eqb_eq in Et.
     apply (in_alookup_nodup _ _ _ (ag_nd_sidx s A)) in HI.
-    apply extract_key_ok; auto.
+    destruct (extract_key_ok csc (si_cols x) r CO) as [key Hk].
     - intros c Hc. eapply (ag_idx_cols s A k x csc HI); auto. rewrite Et. exact EL.
-    - rewrite Forall_forall in NW. apply NW. exact Hr. }
+    - rewrite Forall_forall in NW. apply NW. exact Hr.
+    - rewrite Hk. exact I. }
   destruct (uniq_probe tn csc rows (s_sidx s)) as [pn er]. cbn [fst] in NP. subst pn.
   destruct er; [cbn; auto with c33|].
   destruct (forallb (table_accepts csc) rows); cbn [negb]; [|cbn; auto with c33].
